@@ -275,7 +275,15 @@ def _run(ck, m):
           'than the file suffix that skip a listed file: %s — a rotated file that holds operations at or after `since` can be left unread'
           % (len(out_loop), len(in_loop), bool(lists), whole, extra_conditions), '%s:%s' % (qb.file, qb.line))
     # rotation: the function that renames the live oplog file must not remove it
+    from nl.locks import backward_slice as _bs
     rot = [b for b in P.user_bodies() if b.id.endswith('Oplog::get_log_file_append_mode')]
+    if not rot:
+        # moved or inlined: the body that renames the live oplog file (source name built by the live-file-name function)
+        rot = [b for b in P.user_bodies() if not b.id.startswith(('nundb::client::', 'nundb::command_line::'))
+               and any(callee_decl(t) == 'std::fs::rename' and t['args'] and
+                       any(callee(b.term(c)).endswith('get_op_log_file_name') for c in _bs(b, t['args'][0])[0])
+                       for _, t in b.calls())]
+    ck.floor('C12.c', len(rot), 1, 'functions that rotate the live oplog file')
     if rot:
         r_ = rot[0]
         ren = [bi for bi, t in r_.calls() if callee_decl(t) == 'std::fs::rename']
@@ -283,6 +291,79 @@ def _run(ck, m):
         ck.ob('C12.c', short(r_.id), 'rotation-renames', bool(ren) and not rem,
               'rotation renames the full file and removes nothing' if ren and not rem else 'rotation: rename=%s remove/truncate=%s' % (bool(ren), bool(rem)),
               '%s:%s' % (r_.file, r_.line))
+        # the rotated file's name must be fresh: `rename` silently replaces an existing target, so a name computed from the
+        # log's own content (the time of its newest record) collides when two consecutive files end on the same timestamp
+        # — one multi-database snapshot message writes N records under one id
+        from nl.locks import backward_slice
+        FRESH = ('std::time::SystemTime::now', 'std::time::Instant::now')
+        READS = ('std::fs::File::open', 'std::fs::OpenOptions::open', 'std::io::Read::read', 'std::io::Read::read_exact',
+                 'std::fs::read_dir', 'std::fs::metadata', 'std::fs::File::metadata')
+
+        def _reaches(fn_id, targets, seen=None, depth=0):
+            seen = seen if seen is not None else set()
+            if fn_id in seen or depth > 6:
+                return False
+            seen.add(fn_id)
+            fb = P.bodies.get(fn_id)
+            if fb is None:
+                return False
+            for _, t2 in fb.calls():
+                d2 = callee_decl(t2)
+                if d2 in targets or ('fetch_add' in d2 and 'fetch_add' in targets):
+                    return True
+                if _reaches(callee(t2), targets, seen, depth + 1):
+                    return True
+            return False
+        for bi in ren:
+            t = r_.term(bi)
+            if len(t['args']) < 2:
+                continue
+            feeders = sorted(backward_slice(r_, t['args'][1])[0])
+            fresh, stale = [], []
+            for c in feeders:
+                tc = r_.term(c)
+                if callee_decl(tc) in FRESH or _reaches(callee(tc), FRESH + ('fetch_add',)):
+                    fresh.append(short(callee(tc)))
+                elif callee(tc) in P.bodies and _reaches(callee(tc), READS):
+                    stale.append(short(callee(tc)))
+            okn = bool(fresh)
+            ck.ob('C12.i', short(r_.id), 'rotated-name-fresh', okn,
+                  'the name of a rotated file takes a fresh component from %s' % sorted(set(fresh)) if okn else
+                  'the name a full oplog file is renamed to has no fresh component (clock or counter)%s: `rename` replaces an existing '
+                  'file of that name, so two files that end on the same record time — one multi-database snapshot writes N records under '
+                  'one id — collapse into one and every record of the first is lost while still within the configured log size'
+                  % ('; it is computed from the log itself by %s' % sorted(set(stale)) if stale else ''), r_.loc(bi))
+    # nobody opens the live log with truncation: a reader that creates a missing file with File::create (the gap between
+    # the rotation's rename and the appender's re-creation) empties what the appender wrote in between
+    truncs, nlog, log_scope = [], 0, []
+    for b in P.user_bodies():
+        if b.id.startswith(('nundb::client::', 'nundb::command_line::')):
+            continue
+        if not any(callee(t).endswith('get_op_log_file_name') for _, t in b.calls()):
+            continue
+        nlog += 1
+        scope = [b]
+        # helpers that are handed the name (get_log_file_read_mode(&name))
+        for bi, t in b.calls():
+            hb = P.bodies.get(callee(t))
+            if hb is not None and hb not in scope and any(
+                    callee(b.term(c)).endswith('get_op_log_file_name') for a in t['args'] for c in _bs(b, a)[0]):
+                scope.append(hb)
+        log_scope.extend(x for x in scope if x not in log_scope)
+    for b in log_scope:
+        for bi, t in b.calls():
+            d = callee_decl(t)
+            if d in ('std::fs::File::create', 'std::fs::File::set_len'):
+                truncs.append('%s@%s' % (short(b.id), b.loc(bi)))
+            elif d == 'std::fs::OpenOptions::truncate':
+                vals = [const_val(r) for r in origins(b, t['args'][1])] if len(t['args']) > 1 else [True]
+                if vals != [False]:
+                    truncs.append('%s@%s' % (short(b.id), b.loc(bi)))
+    ck.ob('C12.j', 'oplog', 'live-log-never-truncated', not truncs,
+          'none of the %d functions that open the live oplog file truncates it' % nlog if not truncs else
+          'the live oplog file can be truncated at %s: records appended since the last rotation (the newest ones) disappear, '
+          'the reported last-operation time falls back and the catch-up misses them' % truncs, '')
+    ck.floor('C12.j', nlog, 3, 'functions that name the live oplog file')
     # who removes *.op files in the oplog directory
     removers = []
     for b in P.user_bodies():
